@@ -5,7 +5,8 @@ from .common import use_repo
 STATES = ["active", "idle"]
 
 
-def build(types, dt100, stop=1000):
+def build(types, dt100, stop=1000, spawn=None, default_v=2):
+    spawn = spawn or {}
     BPTK_Py = use_repo()
     from BPTK_Py import Model, Agent, Event, DelayedEvent, DataCollector, SimultaneousScheduler
 
@@ -19,6 +20,8 @@ def build(types, dt100, stop=1000):
         def initialize(self):
             self.register_event_handler(["active", "idle"], "ping", self.on_event)
             self.register_event_handler(["active"], "pong", self.on_event)
+            for kid in spawn.get(self.agent_type, ()):      # e.g. a firm hiring its employees
+                self.model.create_agent(kid, prop_v(default_v))
 
         def on_event(self, event):
             self.model._handled.append((self.id, event.data["eid"]))
@@ -32,7 +35,18 @@ def build(types, dt100, stop=1000):
             m._calls.append("a%d" % self.id)
             for p in m._plan:
                 if p["snd"] == self.id and p["k"] == m._stepidx:
-                    m.enqueue_event(make_event(p, self.id))
+                    if p["op"] == "Plan":
+                        m.enqueue_event(make_event(p, self.id))
+                    elif p["op"] == "PlanSet":
+                        if p["kind"] == "st":
+                            self.state = p["x"]
+                        else:
+                            self.v = p["x"] / 2.0
+                    elif p["op"] == "PlanDel":
+                        m.delete_agent(p["victim"])
+                    elif p["op"] == "PlanNew":
+                        if m.next_agent_id + 1 + len(spawn.get(p["ty"], ())) <= m._max_ids:
+                            m.create_agent(p["ty"], prop_v(default_v))
 
     def make_event(p, sender):
         d = p["d"] / 100.0
@@ -57,6 +71,7 @@ def build(types, dt100, stop=1000):
     for ty in types:
         m.register_agent_factory(ty, (lambda t: lambda agent_id, model, properties: RefAgent(agent_id, model, properties, t))(ty))
     m._make_event = make_event
+    m._max_ids = 10 ** 9
     return m
 
 
